@@ -324,6 +324,7 @@ const idStride = 100000
 func rowID(w, j int) int64 { return int64(w*idStride + j + 1) }
 
 type request struct {
+	Lock    bool              `json:"lock,omitempty"`
 	Op      string            `json:"op"`
 	Path    string            `json:"path"`
 	Headers map[string]string `json:"headers"`
@@ -565,11 +566,12 @@ func waitRecovered(c *child) (map[string]interface{}, error) {
 	}
 }
 
-func doWrite(c *child, cl class, w int) (int, error) {
+func doWrite(c *child, cl class, w int, lock bool) (int, error) {
 	req, _, err := buildRequest(cl, w)
 	if err != nil {
 		return 0, err
 	}
+	req.Lock = lock
 	if err := c.send(req); err != nil {
 		return 0, err
 	}
@@ -621,7 +623,7 @@ func runReference(ws []class, children *int) *refRun {
 		return r
 	}
 	for i, cl := range ws {
-		st, err := doWrite(c, cl, i+1)
+		st, err := doWrite(c, cl, i+1, false)
 		if err != nil {
 			r.err = err
 			return r
@@ -721,6 +723,7 @@ func runScenario(sc scenario, ref *refRun) (o scenarioOutcome) {
 	}
 	nextW := 0
 	replayFailed, retried := map[int]bool{}, map[int]bool{}
+	reusedBuf := map[int]bool{} // writes whose request buffer was overwritten while the entry was queued
 	acked := map[int]bool{}
 	durableAt := map[int]int{} // write index -> schedule step at which it became durable (WAL file or Parquet)
 	var pending []int          // acknowledged by this incarnation, WAL append still held
@@ -742,8 +745,17 @@ func runScenario(sc scenario, ref *refRun) (o scenarioOutcome) {
 	for i < len(sc.Sched) {
 		lab := sc.Sched[i]
 		switch lab {
-		case "w":
-			st, err := doWrite(c, sc.Writes[nextW], nextW+1)
+		case "w", "wu":
+			reusedBuf[nextW+1] = lab == "wu"
+			st, err := doWrite(c, sc.Writes[nextW], nextW+1, lab == "wu")
+			if err == nil && lab == "wu" {
+				// the handler has answered; now the caller's request buffer is reused while the entry is queued
+				if m, e2 := cmdExpect(c, "reuse", "reused"); e2 != nil {
+					err = e2
+				} else if n, _ := m["bytes"].(float64); n == 0 && st == 204 {
+					err = fmt.Errorf("pass-through write handed no raw payload to the WAL writer")
+				}
+			}
 			if err != nil {
 				o.infra = fmt.Sprintf("step %d write: %v", i, err)
 				return
@@ -993,7 +1005,9 @@ func runScenario(sc scenario, ref *refRun) (o scenarioOutcome) {
 						everInWal = true
 					}
 					if !k.wal[id] && !k.pq[id] {
-						if !everInWal && k.Label == "live" {
+						if !everInWal && k.Label == "live" && reusedBuf[w] {
+							mech = "wal-entry-corrupted-by-request-buffer-reuse:" + walFmt(cl)
+						} else if !everInWal && k.Label == "live" {
 							mech = "wal-entry-unreadable:" + walFmt(cl) + ":" + attrOf(cl)
 						} else if replayFailed[w] && !retried[w] {
 							mech = "wal-file-deleted-although-replay-callback-failed"
